@@ -282,6 +282,30 @@ def liar_stream(rng, pid):
     return cases
 
 
+def next_then_nth_stream(rng, pid, kinds=("vec", "array", "slice", "iter", "range")):
+    """IMPL-ONLY (the model's consumption modes do not include it): some calls of `next()` on a chunk followed by one
+    `nth(j)` on the same chunk iterator (`<k>+nth:<j>`), one-shot and buffered, then more pulls and the remainder"""
+    cases = []
+    i = 0
+    for kind in kinds:
+        for L in (4, 6, 9):
+            for n in (3, 4, 6):
+                for k in (1, 2, 3):
+                    for j in (0, 1, 2):
+                        for style in (0, 1):
+                            c = make_source(rng, "%s-nn%d" % (pid, i), kind, L, hint=rng.choice(["exact", "inexact"]))
+                            tok = "%d+nth:%d" % (k, j)
+                            if style == 0:
+                                c.threads = [["chunk %d %s" % (n, tok), "next"]]
+                            else:
+                                c.threads = [["bufnew %d" % n, "bufnext %s" % tok, "bufnext all"]]
+                            c.owner = "intoseq all"
+                            c.tags = {"implonly", "nomodel"}
+                            cases.append(c)
+                            i += 1
+    return cases
+
+
 def big_chunk_stream(rng, pid, tier):
     """IMPL-ONLY (the model's lists make 10^5-element chunks quadratic): loops with chunk sizes beyond 2^16 over a wrapped
     iterator longer than that -- the monitors check the visits (each element once, with its source index)"""
@@ -503,7 +527,7 @@ def stream_for0(pid, tier, seed):
                                 c.threads = [["bufnew 2"] + ["bufnext %s" % rng.choice(["all", "1", "0"])] * k]
                             c.owner = owner
                             cases.append(c)
-        cases += droppanic_stream(rng, tier, pid) + zst_stream(rng, pid) + closure_panic_stream(rng, pid)
+        cases += droppanic_stream(rng, tier, pid) + zst_stream(rng, pid) + closure_panic_stream(rng, pid) + next_then_nth_stream(rng, pid, kinds=("vec", "array", "iter"))
         return cases
     if pid == "C09":
         cases = defects + pulls_stream(rng, tier, pid, n_random=1000 if not big else 40000, prof=dict(skip=True))
@@ -527,7 +551,7 @@ def stream_for0(pid, tier, seed):
         return cases
     if pid == "C10":
         return defects + pulls_stream(rng, tier, pid, prof=dict(skip=True, owners=["intoseq all", "intoseq 1", "intoseq 2", "intoseq 0"]), exh=False, n_random=2000 if not big else 80000) + liar_stream(rng, pid) + zst_stream(rng, pid) + \
-            [c for c in boundary_stream(rng, tier) if c.kind == "range" and c.owner != "drop"][::2]
+            [c for c in boundary_stream(rng, tier) if c.kind == "range" and c.owner != "drop"][::2] + next_then_nth_stream(rng, pid)
     if pid == "C11":
         return defects + pulls_stream(rng, tier, pid, prof=dict(skip=True, query=True, drain=0.3), n_random=2000 if not big else 80000, exh=False) + \
             exhaustive("C11-x2", small_bases(rng, [[["next", "len"], ["chunk 2 all", "hasmore"]], [["hasmore", "next"], ["skip", "len"]]], ["slice", "vec", "range", "iter"]), 2, 8 if not big else 11) + \
@@ -546,6 +570,19 @@ def stream_for0(pid, tier, seed):
             b.hint = "inexact"
         cases += exhaustive("C12-nf", nf, 2, 10 if not big else 13)
         cases += big_chunk_stream(rng, pid, tier)
+        # a wrapped iterator whose exact size hint understates its length, with direct pulls reserving past the claim before
+        # (and while) the loops run: the loops go on until the iterator itself ends
+        i = 0
+        for kind in ("iter", "iterref"):
+            for L in (6, 10):
+                for k in (2, 3):
+                    for loop in ("fold 2", "foreach 2", "enumforeach 3", "fold 1", "values"):
+                        for pre in ("chunk %d all" % (k + 1), "chunk %d 1" % (k + 2), "bufnew %d ; bufnext all" % (k + 1)):
+                            c = make_source(rng, "C12-liar%d" % i, kind, L, hint="fixed%d" % k)
+                            c.threads = [pre.split(" ; ") + [loop], [loop]]
+                            c.sched = rand_sched(rng, 2, 14)
+                            cases.append(c)
+                            i += 1
         return cases
     if pid == "C13":
         cases = []
@@ -655,6 +692,8 @@ def multi_stream(rng, tier):
         kind = rng.choice(["slice", "vecref", "arrref", "range"])
         L = rng.choice([0, 1, 2, 3, 5, 8])
         c = make_source(rng, "C19-r%d" % i, kind, L)
+        if kind == "range" and L > 0 and rng.random() < 0.15:
+            c.start, c.stop = c.stop, c.start      # an inverted range: legal, empty -- and so are its clones
         c.iters = rng.randint(1, 3)
         live = list(range(c.iters))
         nt = rng.randint(1, 3)
